@@ -334,6 +334,44 @@ def Cats.remove (c : Cats) (gone : String → Bool) : Cats :=
 def Translated.simplify (t : Translated) (σ : String → Option Expr) : Translated :=
   { t with args := substArgs σ t.args }
 
+/-! ## `Model._expand_vectors`: array variables are replaced by their scalar elements
+
+Every variable group (states, der_states, alg_states, inputs, parameters, constants) is expanded;
+the symbol `x` with a literal subscript becomes the scalar symbol `x[k]`, the derivative
+`der(x)` with subscript `k` becomes `der(x[k])`, and `_substitute_delay_arguments` applies this
+to the delayed expressions and to the durations alike. -/
+
+def toIndex (q : Rat) : Option Nat :=
+  if q.den = 1 ∧ q.num > 0 then some q.num.toNat else none
+
+def elemName (n : String) (k : Nat) : String := n ++ "[" ++ toString k ++ "]"
+
+/-- A literal positive integer subscript. -/
+def litIndex : Expr → Option Nat
+  | .lit q => toIndex q
+  | _ => none
+
+/-- Renaming of literally subscripted references to the expanded scalar symbols. -/
+def expandRef : Expr → Expr
+  | .lit q => .lit q
+  | .time => .time
+  | .ref n => .ref n
+  | .idx n i =>
+    match litIndex i with
+    | some k => .ref (elemName n k)
+    | none => .idx n (expandRef i)
+  | .der n => .der n
+  | .derAt n i =>
+    match litIndex i with
+    | some k => .der (elemName n k)
+    | none => .derAt n (expandRef i)
+  | .un f e => .un f (expandRef e)
+  | .ite c t e => .ite (expandRef c) (expandRef t) (expandRef e)
+  | .bin o a b => .bin o (expandRef a) (expandRef b)
+  | .delay id a d => .delay id (expandRef a) (expandRef d)
+  | .dsym k => .dsym k
+  | .dsymAt k i => .dsymAt k (expandRef i)
+
 /-! ## `transfer_model` with `cache=True` as a state machine
 
 `try: return load_model(...) except (FileNotFoundError, InvalidCacheError): model =
@@ -370,9 +408,6 @@ def compileResult : Verdict → CallResult
 structure Env where
   time : Rat
   val : String → Nat → Option Rat
-
-def toIndex (q : Rat) : Option Nat :=
-  if q.den = 1 ∧ q.num > 0 then some q.num.toNat else none
 
 def applyBin : BinOp → Rat → Rat → Option Rat
   | .add, x, y => some (x + y)
